@@ -184,6 +184,11 @@ type sameCase struct {
 	// TwoClients (with a fixed bind port): the calls alternate between two clients of the process that share the port number,
 	// one bound to 127.0.0.1 and one to 0.0.0.0 - their sockets collide all the same, so they take turns like one client's calls
 	TwoClients bool `json:"two_clients,omitempty"`
+	// Distinct: the concurrent calls differ (call i asks for card / index / door ... + i): every one of the N encodings
+	// arrives exactly once. AfterSetAddress: the client has made a SetAddress call - the request without a reply, with code
+	// paths of its own - just before.
+	Distinct        bool `json:"distinct_calls,omitempty"`
+	AfterSetAddress bool `json:"after_set_address,omitempty"`
 }
 
 func runSame(c sameCase, scale int) (*rp.Fail, bool) {
@@ -241,10 +246,33 @@ func runSame(c sameCase, scale int) (*rp.Fail, bool) {
 		any.BindIP = [4]byte{0, 0, 0, 0}
 		clients = append(clients, hook.Real(any))
 	}
+	if c.AfterSetAddress && !discovery {
+		sa := api.Case{Call: spec.Call{Op: "SetAddress", Serial: c.Case.Call.Serial, Address: [4]byte{192, 168, 1, 100}, Mask: [4]byte{255, 255, 255, 0}, Gateway: [4]byte{192, 168, 1, 1}}}
+		if sa.Call.Serial == 0 {
+			sa.Call.Serial = 405419896
+		}
+		for _, cl := range clients {
+			api.Invoke(cl, sa)
+		}
+		time.Sleep(5 * time.Millisecond)
+		u.ClearLog()
+		tc.ClearLog()
+	}
+	each := make([]api.Case, c.N)
+	for i := range each {
+		each[i] = c.Case
+		if c.Distinct {
+			each[i].Call.Card += uint32(i)
+			each[i].Call.Index += uint32(i)
+			each[i].Call.Profile += uint8(i)
+			each[i].Call.Door = uint8(1 + (int(c.Case.Call.Door)+i)%4)
+		}
+	}
 	start := make(chan struct{})
 	done := make(chan any, c.N)
 	for i := 0; i < c.N; i++ {
 		client := clients[i%len(clients)]
+		mine := each[i]
 		go func() {
 			<-start
 			if discovery {
@@ -254,7 +282,7 @@ func runSame(c sameCase, scale int) (*rp.Fail, bool) {
 				}()
 				return
 			}
-			done <- api.Invoke(client, c.Case).Panic
+			done <- api.Invoke(client, mine).Panic
 		}()
 	}
 	close(start)
@@ -280,6 +308,20 @@ func runSame(c sameCase, scale int) (*rp.Fail, bool) {
 	if len(got) != c.N {
 		return rp.Failf("wire/"+path+"/send-count/concurrent-identical-calls", "%d identical %s calls made at the same time over %s (fixed bind port: %v) put %d request(s) on the wire; every call sends its own request",
 			c.N, c.Case.Call.Op, path, c.Fixed, len(got)), false
+	}
+	if c.Distinct && !discovery {
+		// every call's own encoding arrives exactly once (in any order)
+		left := map[string]int{}
+		for _, cs := range each {
+			left[string(spec.Request(cs.Call))]++
+		}
+		for _, g := range got {
+			if left[string(g)] == 0 {
+				return rp.Failf("wire/"+path+"/request-bytes/concurrent-distinct-calls", "%d different %s calls made at the same time over %s (fixed bind port: %v, after a SetAddress call: %v): the controller received %x - the encoding of none of the calls, or of one of them for the second time", c.N, c.Case.Call.Op, path, c.Fixed, c.AfterSetAddress, g), false
+			}
+			left[string(g)]--
+		}
+		return nil, false
 	}
 	for _, g := range got {
 		if !bytes.Equal(g, want) {
@@ -310,6 +352,10 @@ func genSame(t *rapid.T) sameCase {
 	cs := gen.Call(t, op)
 	c := sameCase{Case: cs, Path: rapid.SampledFrom([]string{"broadcast", "udp", "tcp"}).Draw(t, "path"), N: rapid.IntRange(2, 4).Draw(t, "n"), Fixed: rapid.Bool().Draw(t, "fixed"), Debug: gen.Debug(t, "debug")}
 	c.TwoClients = c.Fixed && rapid.Bool().Draw(t, "two.clients")
+	if op != "GetDevices" && rapid.Bool().Draw(t, "distinct") {
+		c.Distinct, c.AfterSetAddress = true, rapid.Bool().Draw(t, "after.set.address")
+		c.Case = gen.Call(t, rapid.SampledFrom([]string{"GetCardByID", "GetCardByIndex", "GetEvent", "GetTimeProfile", "OpenDoor", "GetDoorControlState"}).Draw(t, "distinct.op"))
+	}
 	if rapid.IntRange(0, 3).Draw(t, "silent") == 0 {
 		c.Silent, c.N = true, rapid.IntRange(3, 7).Draw(t, "silent.n")
 		if rapid.Bool().Draw(t, "silent.directed") && op != "GetDevices" {
